@@ -192,7 +192,9 @@ func ops() []op {
 				return nil, false
 			}
 			b := c.clone()
-			b.Header.Timestamp = c.n.Slot.GetSlotTime(slot) + 1
+			// any second of the slot, its very first and its last included (slot rules are about slot numbers)
+			off := rapid.SampledFrom([]uint32{0, 0, 1, c.n.Cfg.BlockTime / 2, c.n.Cfg.BlockTime - 1}).Draw(c.t, "secondInSlot")
+			b.Header.Timestamp = c.n.Slot.GetSlotTime(slot) + off
 			b.Header.GeneratorAddress = k.Addr
 			b.Header.MaxHeightGenerated = c.n.LastGeneratedHeight(k.Addr)
 			return resigned(b, c.n.SignerFor(c.valid.Header.Height, k)), true
@@ -210,6 +212,19 @@ func ops() []op {
 	})
 	slotMut("slot-in-future", func(c *mctx) (int, bool) {
 		return c.n.Cfg.SlotsBehind + 1 + rapid.IntRange(0, 3).Draw(c.t, "future"), true
+	})
+	add("slot-in-future:first-second-of-the-next-slot", true, func(c *mctx) (*blockchain.Block, bool) {
+		// the boundary of the future rule: the slot after the current one, stamped with its very first second
+		slot := c.n.Cfg.SlotsBehind + 1
+		k, err := c.n.GeneratorAt(c.valid.Header.Height, slot)
+		if err != nil {
+			return nil, false
+		}
+		b := c.clone()
+		b.Header.Timestamp = c.n.Slot.GetSlotTime(slot)
+		b.Header.GeneratorAddress = k.Addr
+		b.Header.MaxHeightGenerated = c.n.LastGeneratedHeight(k.Addr)
+		return resigned(b, c.n.SignerFor(c.valid.Header.Height, k)), true
 	})
 	add("slot-of-another-validator", true, func(c *mctx) (*blockchain.Block, bool) {
 		// timestamp moves to a later, non-future slot owned by somebody else; header still names and is signed by the original owner
@@ -635,7 +650,7 @@ var opTickets = func() []int {
 	var out []int
 	for i, o := range allOps {
 		out = append(out, i)
-		if strings.HasPrefix(o.name, "aggregate-") || strings.HasPrefix(o.name, "validator-change-") || o.name == "maxHeightGenerated-contradicting" {
+		if strings.HasPrefix(o.name, "aggregate-") || strings.HasPrefix(o.name, "validator-change-") || strings.HasPrefix(o.name, "slot-in-future:") || o.name == "maxHeightGenerated-contradicting" {
 			out = append(out, i, i)
 		}
 	}
